@@ -1,5 +1,6 @@
 import PQ.Model.Writer
 import PQ.Model.Reader
+import PQ.Model.Fault
 import PQ.Model.Spec
 import PQ.Model.SpecWriter
 import PQ.Model.Snappy
@@ -161,6 +162,29 @@ def readAll (cols : List Col) (dc : Decomp) (file : Bytes) : String :=
           | some (t, bufs) => loop fuel { st with bufs := bufs } (k+1) (recs ++ [t])
     let (status, k, recs) := loop limit st 0 []
     s!"open=ok rows={st.rows} nexts={k} err={status} recs={if recs.isEmpty then "-" else ";".intercalate recs}"
+
+/-- `readAll` over a source that fails during the source-touching API call number `k` (0 = the constructor,
+`j` = the `j`-th `Next` that loads a row group; `PQ/Model/Fault.lean`): the line `zoo-read … fail=` prints -/
+def readAllF (cols : List Col) (dc : Decomp) (file : Bytes) (k : Nat) : String :=
+  match openReaderF cols dc file k with
+  | (.error .err, _) => "open=err rows=0 nexts=0 err=- recs=-"
+  | (.error .panic, _) => "open=panic rows=0 nexts=0 err=- recs=-"
+  | (.ok st, k) =>
+    let limit := (st.rows + 3).toNat
+    let rec loop : Nat → RState → Nat → Nat → List String → (String × Nat × List String)
+      | 0, st, _, n, recs => (if st.err then "err" else "ok", n, recs)
+      | fuel+1, st, k, n, recs =>
+        match st.nextF k with
+        | (.error _, _) => ("panic", n, recs)
+        | (.ok (false, st), _) => (if st.err then "err" else "ok", n, recs)
+        | (.ok (true, st), k) =>
+          if st.err then loop fuel st k (n+1) (recs ++ ["-"]) else
+          if !st.fieldsSet ∧ !st.cols.isEmpty then ("panic", n + 1, recs) else
+          match scanAll st.cols st.bufs with
+          | none => ("panic", n + 1, recs)
+          | some (t, bufs) => loop fuel { st with bufs := bufs } k (n+1) (recs ++ [t])
+    let (status, n, recs) := loop limit st k 0 []
+    s!"open=ok rows={st.rows} nexts={n} err={status} recs={if recs.isEmpty then "-" else ";".intercalate recs}"
 
 def showEntry (e : Entry Bytes) : String :=
   s!"{e.rep}.{e.dl}." ++ (match e.val with | some v => "x" ++ hexBody v | none => "-")
